@@ -124,11 +124,28 @@ const MAX_NODES: usize = 60;
 /// bound for trees widened by AddMany (one parent with up to 300 children: inline capacities, index widths)
 const WIDE_NODES: usize = 700;
 
+/// some position has two children whose names differ only in the namespace prefix (`ns:e` / `e`): both fields are bound
+/// to one serde name, which the statements exclude for renderings (C01); the tree operations themselves are still compared
+fn has_prefix_clash(m: &MNode) -> bool {
+    let mut seen: Vec<&str> = Vec::new();
+    for (_, c) in &m.children {
+        let l = crate::model::local_of(&c.name);
+        if seen.contains(&l) {
+            return true;
+        }
+        seen.push(l);
+    }
+    m.children.iter().any(|(_, c)| has_prefix_clash(c))
+}
+
 fn render_check(real: &Element<String>, m: &MNode) -> Result<(), String> {
     let opts = Options::quick_xml_de();
     let src = real.to_serde_struct(&opts);
     let defs = read_both(&src).map_err(|e| format!("rendered output unreadable: {}\n{}", e, src))?;
     well_formed(&defs).map_err(|e| format!("rendered output is not well-formed (C04): {}\n{}", e, src))?;
+    if has_prefix_clash(m) {
+        return Ok(());
+    }
     let tree = build_tree(&defs, &opts.attribute_prefix, &opts.text_identifier).map_err(|e| format!("rendered structs do not form a tree: {}\n{}", e, src))?;
     compare_schema(&m.schema(), &tree, "").map_err(|e| format!("rendered fields do not reflect the tree: {}\n{}", e, src))?;
     let expect = m.schema().count_struct_positions().max(1);
@@ -265,6 +282,9 @@ fn apply(w: &mut World, op: &Op, st: &mut Flags) -> Result<(), String> {
         Op::Render { slot } => {
             if let (Some(r), Some(m)) = (w.real[*slot].as_ref(), w.model[*slot].as_ref()) {
                 st.renders += 1;
+                if has_prefix_clash(m) {
+                    st.prefix_clash = true;
+                }
                 render_check(r, m)?;
             }
         }
@@ -308,6 +328,7 @@ struct Flags {
     removed_names: Vec<String>,
     renders: u32,
     wide: bool,
+    prefix_clash: bool,
 }
 
 fn run_ops(ops: &[Op], slots: usize) -> (Result<(), String>, Flags) {
@@ -327,7 +348,7 @@ fn run_ops(ops: &[Op], slots: usize) -> (Result<(), String>, Flags) {
     (Ok(()), fl)
 }
 
-const NAMES: &[&str] = &["a", "b", "c", "d", "type", "ns:e"];
+const NAMES: &[&str] = &["a", "b", "c", "d", "type", "ns:e", "e", "p:a"];
 const ATTRS: &[&str] = &["id", "k", "type", "x:y", "xmlns:n", "a"];
 const TEXTS: &[&str] = &["t", "", " "];
 
@@ -556,6 +577,7 @@ impl Property for C16 {
         flag("merge_after_add", fl.merge_after_add);
         flag("mark_optional_with_subtree", fl.optional_with_subtree);
         flag("node_with_more_than_16_children", fl.wide);
+        flag("siblings_differing_only_in_prefix", fl.prefix_clash);
         st.add("renderings_checked", fl.renders as u64);
         st.add("operations", ops.len() as u64);
         st.sample(|| json!({"operations": ops}));
